@@ -247,6 +247,25 @@ class Origins:
         return [(None, '?', 'definition not of the form parameter + c: ' + src(v)[:80], d)]
 
 
+def _kind_guard(t):
+    """For a guard `X.dtype.kind != 'i'` / `X.dtype.kind not in 'iu'` (the raising condition): the set of kinds that pass; else None."""
+    if isinstance(t, ast.Compare) and len(t.ops) == 1 and isinstance(t.left, ast.Attribute) and t.left.attr == 'kind' \
+            and isinstance(t.left.value, ast.Attribute) and t.left.value.attr == 'dtype':
+        c = t.comparators[0]
+        vals = None
+        if isinstance(c, ast.Constant) and isinstance(c.value, str):
+            vals = set(c.value) if isinstance(t.ops[0], (ast.In, ast.NotIn)) else {c.value}
+        elif isinstance(c, (ast.Tuple, ast.List, ast.Set)) and all(isinstance(e, ast.Constant) and isinstance(e.value, str) for e in c.elts):
+            vals = {e.value for e in c.elts}
+        if vals is None:
+            return None
+        if isinstance(t.ops[0], (ast.NotEq, ast.NotIn)):
+            return vals                       # raises unless kind in vals
+        if isinstance(t.ops[0], (ast.Eq, ast.In)):
+            return set('biufcmMOSUV') - vals  # raises when kind in vals
+    return None
+
+
 def _in_body(ifnode, d):
     for st in ifnode.body:
         for n in ast.walk(st):
@@ -281,6 +300,17 @@ def find_pack(fa):
 
 def check_pack_function(ctx, fa, oracle, kind):
     f = fa.func
+    # a field of another length is refused, not stretched: no broadcast / resize / tile of a field argument
+    for c in walk_local(f.node):
+        if isinstance(c, ast.Call) and call_name(c) in ('broadcast_to', 'broadcast_arrays', 'resize', 'tile', 'repeat') and c.args:
+            a0 = c.args[0]
+            base = a0
+            while isinstance(base, (ast.Subscript, ast.Attribute)):
+                base = base.value
+            if isinstance(base, ast.Name) and base.id in f.params and call_name(c) != 'broadcast_arrays':
+                ctx.fail('C06.SHAPE', f, c, 'stretched field ' + src(c)[:50],
+                         '%s stretches the field `%s` to the length of the others (`%s`): an array of inconsistent length (one element against many) is packed '
+                         'into every ID instead of being rejected with ValueError' % (f.qualname, base.id, src(c)[:60]))
     ret, packexpr, terms = find_pack(fa)
     org = Origins(fa)
     by_field = {}
@@ -358,6 +388,15 @@ def check_pack_function(ctx, fa, oracle, kind):
         if pr is not None:
             if fa.guard_dominates(g, packexpr):
                 shape_edges.append((pr, g))
+            continue
+        kind = _kind_guard(g.test)
+        if kind is not None:
+            # a type guard on <field>.dtype.kind: whole numbers come signed ('i') and unsigned ('u'); FITS columns of SDSS files are both
+            accepted = kind if not g.negated else None
+            ok_kind = accepted is not None and {'i', 'u'} <= accepted
+            ctx.check('C06.GUARD', ok_kind, f, g.stmt, 'the integer-type guard `%s` lets signed and unsigned integer arrays through' % src(g.test),
+                      msg='%s refuses arrays by `%s`: unsigned integer arrays (uint16 / uint64 columns, the type of the packed ID itself) are whole numbers in range '
+                          'and are rejected with ValueError instead of being packed' % (f.qualname, src(g.test)), construct='dtype.kind guard ' + src(g.test))
             continue
         try:
             r = rejected(g.test, resolver=fa.resolve)
